@@ -89,6 +89,20 @@ class C(Check):
             cid = 'g%d' % k
             cases.append((cid, st))
             meta[cid] = st
+        # products that collapse to a plain number while a sum is being expanded / built (surds, complex surds, float exponents)
+        from vlib.gen import I as I_, FR as FR_, F as F_, K as K_, X as X_, Y as Y_
+        from fractions import Fraction as Fr
+        surds = [('pow', K_('I'), FR_(Fr(1, 2))), ('pow', I_(2), FR_(Fr(1, 2))), ('pow', ('cpx', ('int', '1'), ('int', '1')), FR_(Fr(1, 2))), ('pow', I_(3), FR_(Fr(1, 3))), ('pow', K_('I'), FR_(Fr(1, 3))),
+                 ('pow', X_, F_(0.5)), ('pow', X_, FR_(Fr(1, 2))), ('pow', X_, F_(1.5)), ('pow', ('add', X_, I_(1)), FR_(Fr(1, 3))), ('exp', X_)]
+        for k in range(self.q(600, 12000)):
+            t = rng.choice(surds)
+            u = rng.choice((t, ('pow', t, I_(-1)), ('pow', t, I_(2)), ('pow', t, I_(-2)), ('mul', I_(3), t), ('div', FR_(Fr(1, 2)), t)))
+            other = rng.choice((Y_, ('add', Y_, I_(1)), ('sin', Y_), ('mul', I_(2), Y_), FR_(Fr(1, 3))))
+            body = ('mul', t, ('add', u, other)) if rng.random() < 0.6 else ('mul', ('add', t, other), ('add', u, other))
+            st = [('emit', rng.choice((('expand', body), ('expand', ('pow', ('add', t, other), I_(rng.choice((2, 3))))), ('add', ('mul', t, u), other), ('sub', ('mul', t, u), ('mul', u, t)))))]
+            cid = 'c%d' % k
+            cases.append((cid, st))
+            meta[cid] = st
         res, reps = run_cases('asan', cases, tag='c03', timeout=30, env_extra={'SYMENGINE_VERIF_ASSERT': 'continue'})
         check_process_reports(self, reps)
         seen = set()
